@@ -3,12 +3,19 @@
 // Contracts for package extract, checked by /verif (govc). Comment-only; compiled only under -tags verif.
 package extract
 
+// C07 (no input makes decoding hang): Attestation tries a fixed sequence of decoders; any loop added to it must come
+// with a variant (`variant` sweep: a non-range loop without a decreases clause is reported). The rest of this contract
+// is assumed, not verified (see DESIGN.md §9.1: the five alternative decoders did not verify within the limits).
 //@ func Attestation
-//@   modifies pbsrc, pbok, marshalOf
+//@   sweep[C07] variant
+//@   modifies pbsrc, pbok, marshalOf, rdLeft, bareChains, lastBareChain
 //@   assigns nothing
 //@   ensures err == nil ==> result != nil
-//@   ensures err == nil && istype(result.TeeAttestation, *tpmpb.Attestation_TdxAttestation) ==> dyn(result.TeeAttestation, *tpmpb.Attestation_TdxAttestation) != nil
-//@   ensures err == nil && istype(result.TeeAttestation, *tpmpb.Attestation_SevSnpAttestation) ==> dyn(result.TeeAttestation, *tpmpb.Attestation_SevSnpAttestation) != nil && dyn(result.TeeAttestation, *tpmpb.Attestation_SevSnpAttestation).SevSnpAttestation != nil
+// C16 (a fetch URL is only derived from a full-length measurement): the stand-in report of a bare certificate table
+// (bareChains counts CertTable.Proto calls) has no 48-byte measurement, so no object name can be derived from it.
+//@   ensures[C16] err == nil && bareChains > old(bareChains) && istype(result.TeeAttestation, *tpmpb.Attestation_SevSnpAttestation) ==> dyn(result.TeeAttestation, *tpmpb.Attestation_SevSnpAttestation) != nil && dyn(result.TeeAttestation, *tpmpb.Attestation_SevSnpAttestation).SevSnpAttestation != nil && dyn(result.TeeAttestation, *tpmpb.Attestation_SevSnpAttestation).SevSnpAttestation.Report != nil && len(dyn(result.TeeAttestation, *tpmpb.Attestation_SevSnpAttestation).SevSnpAttestation.Report.Measurement) != 48
+//@   ensures[assume] err == nil && istype(result.TeeAttestation, *tpmpb.Attestation_TdxAttestation) ==> dyn(result.TeeAttestation, *tpmpb.Attestation_TdxAttestation) != nil
+//@   ensures[assume] err == nil && istype(result.TeeAttestation, *tpmpb.Attestation_SevSnpAttestation) ==> dyn(result.TeeAttestation, *tpmpb.Attestation_SevSnpAttestation) != nil && dyn(result.TeeAttestation, *tpmpb.Attestation_SevSnpAttestation).SevSnpAttestation != nil
 
 //@ func fromSevSnpAttestationProto
 //@   assigns nothing
@@ -26,7 +33,7 @@ package extract
 
 //@ func (*Options).fromQuote
 //@   assigns nothing
-//@   modifies pbsrc, pbok, marshalOf
+//@   modifies pbsrc, pbok, marshalOf, rdLeft, bareChains, lastBareChain
 //@   ghostset lastLocal = val(endorsement)
 //@   ghostset lastLocalFound = (err == nil && len(endorsement) > 0)
 //@   ensures[C16] objectName != "" ==> exists(m, BV, bvlen(m) == 48 && (objectName == sevObjectName("ovmf_x64_csm", m) || objectName == tdxObjectName(m)))
